@@ -17,6 +17,7 @@ owed, timing rules) is decided by TLC on the recorded trace.
 """
 import random
 
+from .. import sim as _sim          # noqa: F401  (installs the RuntimeWarning filter for never-run testbenches)
 from . import ss_partner as P
 
 TSEQ_SETS = 4            # scaled TSEQ burst (sets of 8 words)
@@ -69,8 +70,8 @@ class TxStreamParser:
         While the link is not up (`up` False) words that belong to no link command / packet are training data: the TS
         emitters may resume in the middle of a set after an interrupted burst, so torn sets are not judged."""
         w = (data, ctrl)
-        if self.state == "ts" and not up and w in (COMW, TSEQ0):
-            self.state = "idle"                   # a torn set: resynchronise on the next first word
+        if self.state == "ts" and not up and w in (COMW, TSEQ0, (0, 0)):
+            self.state = "idle"                   # a torn set (no word of a training set is all zero): resynchronise
         if self.state == "idle":
             if w == (0, 0):
                 return "idle", None
@@ -228,7 +229,7 @@ class LinkBench:
         info = {"skipped": 0, "lc": [], "hp": [], "up_t": [], "down_t": [], "marks": {}}
         parser = TxStreamParser()
         st = {
-            "cycle": 0, "last_act": 0, "stall": 0, "up": False, "rst": False,
+            "cycle": 0, "last_act": 0, "stall": 0, "ei_prev": 1, "up": False, "rst": False,
             # DUT transmit phase as seen on the wire
             "ph": None, "idlerun": 0, "skp_in_unit": 0, "cs_in_unit": 0, "ns": 0, "unit": None,
             "dts": [None, 0],           # [kind, consecutive sets] the DUT sent
@@ -425,8 +426,10 @@ class LinkBench:
                 tag = None
             else:
                 st["pts"], st["pts_n"] = None, 0
-            # --- PHY ready (bounded stalls)
-            if stall_p and st["stall"] < MAX_STALL and rng.random() < stall_p:
+            # --- PHY ready: as USB3PhysicalLayer drives it -- a word is taken every cycle, except in electrical idle
+            #     (sink.ready = registered ~tx_electrical_idle through the scrambler / CTC stage).  Optional bounded
+            #     stalls (stall_p) exist for experiments only; the checks do not use them.
+            if st["ei_prev"] or (stall_p and st["stall"] < MAX_STALL and rng.random() < stall_p):
                 st["stall"] += 1
                 setsig(phy.sink.ready, 0)
                 rdy = 0
@@ -474,10 +477,18 @@ class LinkBench:
                 words[:] = [x for x in words if isinstance(x[2], tuple)]       # the partner stops U0 traffic
             # --- DUT outputs: transmit stream
             ei = ctx.get(phy.tx_electrical_idle)
+            st["ei_prev"] = ei
             v = ctx.get(phy.sink.valid)
             cs = ctx.get(phy.can_send_skp)
             sk = ctx.get(ctc.sending_skip)
             if ei:
+                if parser.state in ("lc", "hp", "dpp"):
+                    # the transmitter went to electrical idle in the middle of a unit: it is never completed
+                    log({"e": "tx_abort"})
+                    parser.state = "idle"
+                    st["cs_in_unit"] = st["skp_in_unit"] = 0
+                elif parser.state == "ts":
+                    parser.state = "idle"
                 ph = "LFPS" if ctx.get(phy.send_lfps_polling) else "EI"
                 if ph != st["ph"]:
                     st["ph"] = ph
@@ -546,6 +557,7 @@ class LinkBench:
                         log({"e": "hps", "ns": st["ns"]})
                         st["ns"] = 0
                         info["hp"].append([c, None])
+                        st["hp_in_u0"] = st["up"]
                     elif kind == "hp":
                         lim = []
                         for w in x[1]:
@@ -555,7 +567,8 @@ class LinkBench:
                         if info["hp"]:
                             info["hp"][-1][1] = c
                         f = P.parse_dw3(x[1][3])
-                        if st["up"] and not st["p_ignoring"] and f["seq"] not in st["sent_unacked"]:
+                        if st["up"] and st.get("hp_in_u0") and not st["p_ignoring"] \
+                                and f["seq"] not in st["sent_unacked"]:
                             st["sent_unacked"].append(f["seq"])
                             if st["auto_ack"] is not None:
                                 st["ackq"].append([c + st["auto_ack"], "ack"])
@@ -591,7 +604,7 @@ class LinkBench:
                 info["probe"].append((c, ei, v, cs, ctx.get(phy.sink.data), ctx.get(phy.sink.ctrl))
                                      + tuple(ctx.get(x) for x in probes))
             # --- partner automatic behaviour in U0 (acts for the following cycles)
-            if st["up"] and not words:
+            if st["up"] and not words and not st.get("hold_auto"):
                 if st.get("adv_due") is not None and st["cycle"] >= st["adv_due"] and st.get("auto_adv", True):
                     st["adv_due"] = None
                     n = st.get("adv_n")
@@ -685,20 +698,27 @@ class LinkBench:
                     # the partner enters Recovery: TS1 until the DUT has left U0, then the cooperative handshake
                     o2 = dict(op[1] if len(op) > 1 else {})
                     o2["initiate"] = True
-                    words[:] = []
+                    st["hold_auto"] = True            # the partner finishes the packet / command it is sending
+                    while words:
+                        await cycle()
                     for _ in range(o2.get("lead", 3)):
                         await cycle()
                     n = 0
-                    while st["up"] and n < 20:
+                    while st["up"] and n < 80:
                         if not words:
                             q_ts("ts1", 8)
                         await cycle()
                         n += 1
-                    await train(o2, "wait")
+                    st["hold_auto"] = False
+                    if st["up"]:
+                        info["skipped"] += 1          # the DUT ignored eight TS1 sets (judged by the specification)
+                    else:
+                        await train(o2, "wait")
                 elif k == "warm_reset":
-                    words[:] = []
-                    while st["cycle"] - st["last_word"] < 9:          # Env: no partner word shortly before
+                    st["hold_auto"] = True
+                    while words or st["cycle"] - st["last_word"] < 9:   # Env: no partner word shortly before
                         await cycle()
+                    st["hold_auto"] = False
                     setsig(phy.lfps_reset_detected, 1)
                     st["rst"] = True
                     log({"e": "rst", "on": True})
